@@ -40,6 +40,14 @@ CLAIMS["C01"] = dict(engine="E1+E2", technique="CrossHair symbolic execution (z3
          "independent signer) and judged by an independent verifier before being reported.",
     ref="DESIGN.md §4 C01")
 
+CLAIMS["C05"] = dict(engine="E1", technique="CrossHair symbolic execution (z3 string theory) of the real registries and JWS/JWT operations over symbolic algorithm names and allow-lists, incl. two-call histories",
+    text="For every algorithm name (any string up to the bound) and every allow-list (absent or up to 3 arbitrary names), given as "
+         "algorithms= or registry=, the gate admits exactly the documented recommended set / the listed registered names; every JWS/JWT "
+         "operation reaches a primitive or returns only with an admitted name, 'none' never verifies, and a second call's verdict equals "
+         "its verdict in isolation even after the caller extends the first list. State leaks across executions surface as CrossHair "
+         "non-determinism and are confirmed by a scripted concrete history.",
+    ref="DESIGN.md §4 C05")
+
 PENDING = {}
 
 
